@@ -289,6 +289,137 @@ func (h *hist) mutation() {
 	}
 }
 
+// coverProbe probes with a rectangle that covers a whole region (a quadrant, the root, everything), exactly or with a
+// margin, and a point inside it.
+func (h *hist) coverProbe(regions []grect) {
+	r := h.r
+	g := hx.Pick(r, regions)
+	m := int64(0)
+	switch r.Intn(4) {
+	case 0:
+		m = 1
+	case 1:
+		m = int64(r.Range(2, 40))
+	}
+	q := grect{g[0] - m, g[1] - m, g[2] + 2*m, g[3] + 2*m}
+	px, py := g[0]+int64(r.Intn(int(g[2]))), g[1]+int64(r.Intn(int(g[3])))
+	mod := r.Range(1, 3)
+	h.out("probe " + h.num(px) + " " + h.num(py) + " " + h.rectWords(q) + " " + strconv.Itoa(mod) + " " + strconv.Itoa(r.Intn(mod)))
+}
+
+func (h *hist) insID(id int) { h.out("ins " + strconv.Itoa(id) + " " + h.rectWords(h.rects[id])) }
+func (h *hist) rmID(id int)  { h.out("rm " + strconv.Itoa(id) + " " + h.rectWords(h.rects[id])) }
+
+// drain generates a history that leaves lazily kept structure behind: a frame fixes the root to S x S, many small
+// rectangles are packed into one quadrant (one or two levels deep) so that it is subdivided, then all of them — or
+// everything in the tree — are removed with Remove and NO Reorganize/Clear, while rectangles covering that quadrant,
+// its parent, the root and everything are probed with all sixteen queries.  Also: nodes outside the root inserted and
+// removed again (emptied outside list), and nodes straddling the centre lines removed while the children stay
+// populated (emptied root contents above non-empty children).
+func (h *hist) drain(thr int) {
+	r := h.r
+	S := int64(16) << uint(r.Intn(3)) // 16, 32, 64 grid units
+	eff := thr
+	if eff < 4 {
+		eff = 64
+	}
+	frame := []grect{{0, S - 1, 1, 1}, {S - 1, 0, 1, 1}, {S - 1, S - 1, 1, 1}}
+	// the packed region: a quadrant of the root or a quadrant of a quadrant
+	size := S / 2
+	rx, ry := int64(r.Intn(2))*size, int64(r.Intn(2))*size
+	regions := []grect{{rx, ry, size, size}, {0, 0, S, S}, {-S, -S, 3 * S, 3 * S}}
+	if r.Bool() {
+		size /= 2
+		rx += int64(r.Intn(2)) * size
+		ry += int64(r.Intn(2)) * size
+		regions = append(regions, grect{rx, ry, size, size})
+	}
+	if rx+size == S && ry+size == S { // keep the frame's far corner out of the packed region
+		frame[2] = grect{S - 1, S/2 - 1, 1, 1}
+		if ry+size > S/2-1 && ry <= S/2-1 && rx+size == S {
+			frame[2] = grect{S/2 - 1, S - 1, 1, 1}
+		}
+	}
+	h.rects = append(h.rects[:0], frame...)
+	npack := r.Range(eff+1, eff*3+4)
+	for i := 0; i < npack; i++ {
+		w, hh := int64(r.Range(1, 2)), int64(r.Range(1, 2))
+		if w > size {
+			w = size
+		}
+		if hh > size {
+			hh = size
+		}
+		h.rects = append(h.rects, grect{rx + int64(r.Intn(int(size-w+1))), ry + int64(r.Intn(int(size-hh+1))), w, hh})
+	}
+	firstPack, endPack := len(frame), len(h.rects)
+	// straddlers (stay in the root's own contents) and strangers outside the root
+	nstr := r.Range(0, 3)
+	for i := 0; i < nstr; i++ {
+		h.rects = append(h.rects, grect{S/2 - 1, S/2 - 1 - int64(r.Intn(2)), 2, 2})
+	}
+	endStr := len(h.rects)
+	nout := r.Range(0, 3)
+	for i := 0; i < nout; i++ {
+		h.rects = append(h.rects, grect{S + int64(r.Range(1, 9)), int64(r.Range(-9, int(S))), int64(r.Range(1, 3)), int64(r.Range(1, 3))})
+	}
+	endOut := len(h.rects)
+	for id := range frame {
+		h.insID(id)
+	}
+	h.out("reorg")
+	order := func(lo, hi int) []int {
+		v := make([]int, 0, hi-lo)
+		for i := lo; i < hi; i++ {
+			v = append(v, i)
+		}
+		for i := len(v) - 1; i > 0; i-- {
+			k := r.Intn(i + 1)
+			v[i], v[k] = v[k], v[i]
+		}
+		return v
+	}
+	maybe := func() {
+		if r.Chance(1, 5) {
+			h.coverProbe(regions)
+		}
+	}
+	for _, id := range order(firstPack, endOut) {
+		h.insID(id)
+		maybe()
+	}
+	if r.Chance(1, 3) && eff != 64 {
+		h.out("reorg") // rebuild once while everything is in: the quadrant is subdivided by the re-insertion
+	}
+	h.coverProbe(regions)
+	// drain: packed first (random order), probing in between and after
+	phases := [][2]int{{firstPack, endPack}}
+	rest := [][2]int{{endPack, endStr}, {endStr, endOut}, {0, firstPack}}
+	for _, k := range order(0, len(rest)) {
+		if r.Chance(2, 3) {
+			phases = append(phases, rest[k])
+		}
+	}
+	if r.Chance(1, 4) { // sometimes the straddlers go first: emptied root contents above populated children
+		phases[0], phases[len(phases)-1] = phases[len(phases)-1], phases[0]
+	}
+	for _, ph := range phases {
+		for _, id := range order(ph[0], ph[1]) {
+			h.rmID(id)
+			maybe()
+		}
+		for k := 0; k < 4; k++ {
+			h.coverProbe(regions)
+		}
+		h.probe()
+	}
+	// life goes on after the drain: a few inserts into the emptied structure
+	for k := r.Range(0, 4); k > 0; k-- {
+		h.insID(r.Intn(len(h.rects)))
+		h.coverProbe(regions)
+	}
+}
+
 func (a *qtArea) Gen(r *hx.Rng, n int, _ string, emit func(string)) {
 	total := 0
 	for total < n {
@@ -299,6 +430,16 @@ func (a *qtArea) Gen(r *hx.Rng, n int, _ string, emit func(string)) {
 			kind = "f"
 			h.j = uint(h.r.Intn(4))
 			huge = 1 << 20
+		}
+		if h.r.Chance(1, 4) {
+			thr := hx.Pick(h.r, []int{4, 4, 5, 5, 3, 64})
+			if thr == 3 || thr == 64 {
+				thr = hx.Pick(h.r, []int{4, 5, thr}) // effective threshold 64 only now and then (long histories)
+			}
+			h.out("reset " + kind + " " + strconv.Itoa(thr))
+			h.drain(thr)
+			total += h.lines
+			continue
 		}
 		thr := hx.Pick(h.r, []int{0, 3, 4, 4, 5, 5, 64})
 		nrect := h.r.Range(1, 40)
